@@ -542,6 +542,18 @@ func (e *Engine) call(fn *ssa.Function, s *St, in *ssa.Call, ip int) (next []suc
 		s.env[in] = UnitV{}
 		st := &St{State: s.State, blk: s.blk, ip: ip + 1, env: s.env}
 		return []succ{{st, nil}}, []Out{{faulted, true, constBytes("GAS must be positive")}}, false
+	case ipfx + "native/management.GetContractByID":
+		// the replay world deploys NNS first, so contract 1 is the linked NNS (common.InferNNSHash); other ids
+		// are not modelled. Only the Hash field carries information.
+		if id, ok := args[0].(IntV); ok && id.t.isC() && id.t.n.Int64() == 1 {
+			for _, n := range e.names {
+				if n == "nns" {
+					return set(PtrV{id: e.alloc(s.State, CellObj{StructV{[]Value{IntV{I(1)}, IntV{I(0)}, constBytes(string(e.world.hashOf("nns"))), NullV{}, NullV{}}}})})
+				}
+			}
+			return set(NullV{})
+		}
+		panic("unmodelled interop " + name + " for an id other than 1")
 	case ipfx + "native/management.GetContract":
 		return set(NullV{}) // no test account is a contract
 	case ipfx + "native/crypto.Ripemd160", ipfx + "native/crypto.Sha256":
